@@ -293,7 +293,18 @@ fn ordinary(h: &H, idx: u64, kp: &std::path::Path, scratch: &std::path::Path, rn
     let (op_text, invertible) = *rng.pick(&OPERATIONS);
     let nlines = *rng.pick(&[1usize, 2, 3, 7, 40, 200]);
     let free = matches!(op_text, "addone" | "noop" | "axisswap order=2,1,4,3") || op_text.starts_with("helmert");
-    let text = gen_input_for(rng, nlines, None, free);
+    let mut text = gen_input_for(rng, nlines, None, free);
+    if op_text.contains("lcc") {
+        // the pole at the apex of the cone, behind ordinary lines
+        for _ in 0..1 + rng.below(2) {
+            let lines: Vec<&str> = text.split_inclusive('\n').collect();
+            let at = if lines.is_empty() { 0 } else { 1 + rng.below(lines.len()) };
+            let mut t: String = lines[..at.min(lines.len())].concat();
+            t += &format!("90 {}\n", rng.int(-20, 40));
+            t += &lines[at.min(lines.len())..].concat();
+            text = t;
+        }
+    }
     let decimals = rng.below(13);
     let dim = 1 + rng.below(4);
     let z = if rng.chance(0.3) { Some(rng.short_decimal(-50.0, 900.0, 1)) } else { None };
